@@ -1,7 +1,8 @@
 SPECIFICATION TSpec
 CONSTANTS
   MinCalls = 10
-  EntryPoints = {"rng::copy_randombytes", "rng::randombytes_buf", "StackByteArray::gen", "[u8; N]::gen", "Vec<u8>::gen", "crypto_secretbox_keygen", "crypto_secretbox_keygen_inplace", "crypto_auth_keygen", "crypto_onetimeauth_keygen", "crypto_shorthash_keygen", "crypto_generichash_keygen", "crypto_kdf_keygen", "crypto_secretstream_keygen", "crypto_box_keypair", "crypto_box_keypair_inplace", "crypto_kx_keypair", "crypto_sign_keypair", "crypto_sign_keypair_inplace", "KeyPair::gen", "KeyPair::gen_with_defaults", "SigningKeyPair::gen", "SigningKeyPair::gen_with_defaults", "Kdf::gen", "Kdf::gen_with_defaults", "crypto_box_seal ephemeral key", "DryocBox::seal ephemeral key", "crypto_secretstream init_push header", "DryocStream::init_push header", "PwHash::hash salt", "PwHash::hash salt (salt_length 8)", "PwHash::hash salt (salt_length 17)", "PwHash::hash salt (salt_length 64)", "PwHash::hash_with_defaults salt", "PwHash::hash_interactive salt", "crypto_pwhash_str salt"}
+  EntryPoints = {"rng::copy_randombytes", "rng::randombytes_buf", "StackByteArray::gen", "[u8; N]::gen", "Vec<u8>::gen", "crypto_secretbox_keygen", "crypto_secretbox_keygen_inplace", "crypto_auth_keygen", "crypto_onetimeauth_keygen", "crypto_shorthash_keygen", "crypto_generichash_keygen", "crypto_kdf_keygen", "crypto_secretstream_keygen", "crypto_box_keypair", "crypto_box_keypair_inplace", "crypto_kx_keypair", "crypto_sign_keypair", "crypto_sign_keypair_inplace", "KeyPair::gen", "KeyPair::gen_with_defaults", "SigningKeyPair::gen", "SigningKeyPair::gen_with_defaults", "Kdf::gen", "Kdf::gen_with_defaults", "crypto_box_seal ephemeral key", "DryocBox::seal ephemeral key", "crypto_secretstream init_push header", "DryocStream::init_push header", "rng::copy_randombytes 257 bytes", "rng::copy_randombytes 1000 bytes", "rng::copy_randombytes 5000 bytes", "rng::randombytes_buf 300 bytes", "rng::randombytes_buf 4097 bytes", "StackByteArray<300>::gen", "[u8; 1000]::gen", "PwHash::hash salt", "PwHash::hash salt (salt_length 8)", "PwHash::hash salt (salt_length 17)", "PwHash::hash salt (salt_length 64)", "PwHash::hash_with_defaults salt", "PwHash::hash_interactive salt", "crypto_pwhash_str salt"}
+  FaultEntryPoints = {}
 INVARIANTS AllCovered
 POSTCONDITION Accepted
 CHECK_DEADLOCK FALSE
